@@ -328,6 +328,10 @@ def make_model(settings, rng, evaluator="rbf", mode="SEP", version=1, nkernel=1,
     kernels = []
     for ik in range(nkernel):
         fl = make_feature_list(settings, rng)
+        if ik > 0 and derive("zoo-shared-feature-list", repr([type(m_).__name__ for m_ in fl.feat_list])) % 5 < 2:
+            # the kernels of one model often use one and the same feature-list object (the draw
+            # above is still made, so that the generator's sequence is as before)
+            fl = kernels[0].feature_list
         bounds = fl.bounds_list
         ev = evaluator
         if mode == "POL":
